@@ -74,11 +74,7 @@ func initTest() *value.Module {
 
 			loc := argFn.Location()
 			subSuite := CurrentSuite.NewSubSuite(argName, loc)
-			suiteMatch := SuiteMatchesFilters(subSuite)
-			switch suiteMatch {
-			case SUITE_MATCH_FULL:
-				subSuite.FullMatch = true
-			case SUITE_MATCH_FALSE:
+			if SuiteMatchesFilters(subSuite) == SUITE_MATCH_FALSE {
 				return value.Nil, value.Undefined
 			}
 
